@@ -529,12 +529,17 @@ def _cid(scn, tid):
     return tid
 
 
+def _mn(name):
+    """file name as sent to the machine (its line protocol uses `/` as a separator; names are opaque to it)"""
+    return str(name).replace("/", "%")
+
+
 def _enc_op(op):
     if op[0] == "get":
-        return f"g:{op[1]}"
+        return f"g:{_mn(op[1])}"
     if op[0] == "unload":
-        return f"x:{op[1]}"
-    return f"u:{op[1]}:{op[2]}:{1 if op[3] else 0}"
+        return f"x:{_mn(op[1])}"
+    return f"u:{_mn(op[1])}:{op[2]}:{1 if op[3] else 0}"
 
 
 def model_line(scn, ex):
@@ -547,9 +552,9 @@ def model_line(scn, ex):
         ev = []
         if st["tid"].startswith("K") and st["label"] == "lock":
             own = ex.futures[int(st["tid"][1:])]["name"]
-            ev = [x for x in st.get("removed", []) if x != own or st.get("exc")]
+            ev = [_mn(x) for x in st.get("removed", []) if x != own or st.get("exc")]
         steps.append(f"{_cid(scn, st['tid'])}/{st['label']}/{'+'.join(ev)}")
-    files = ",".join(f"{n}:{hx}" for n, hx in sorted(scn["files"].items()))
+    files = ",".join(f"{_mn(n)}:{hx}" for n, hx in sorted(scn["files"].items()))
     return (f"run max={scn['max']} files={files} progs={'|'.join(';'.join(_enc_op(o) for o in p) for p in progs)} "
             f"sched={','.join(steps)}")
 
@@ -572,13 +577,13 @@ def real_view(scn, ex):
     en = [(sorted(_cid(scn, t) for t in st["enabled"] if t not in st.get("parked", [])),
            sorted(_cid(scn, t) for t in st.get("parked", [])))
           for st in ex.trace if not S.is_stutter(st["label"])]
-    ents = ",".join(sorted(f"{n}/{1 if e['writing'] else 0}/{e['size']}/{e['fid']}" for n, e in ex.entries.items()))
-    disk = ",".join(sorted(f"{n}@{hx}" for n, hx in ex.disk.items()))
+    ents = ",".join(sorted(f"{_mn(n)}/{1 if e['writing'] else 0}/{e['size']}/{e['fid']}" for n, e in ex.entries.items()))
+    disk = ",".join(sorted(f"{_mn(n)}@{hx}" for n, hx in ex.disk.items()))
     tasks = ",".join(("ok:" + f["value"]) if f["done"] and f["exc"] is None and f["value"] is not None
                      else ("err:" + f["exc"]) if f["done"] and f["exc"] else "pending" for f in ex.futures)
     res = "|".join(";".join(_enc_res(h["res"]) for h in sorted((h for h in ex.hist if h["tid"] == t), key=lambda h: h["k"]))
                    for t in order)
-    return dict(en=en, mem=str(ex.mem), entries=ents, acc=",".join(ex.acc), disk=disk, tasks=tasks, res=res)
+    return dict(en=en, mem=str(ex.mem), entries=ents, acc=",".join(sorted(_mn(x) for x in ex.acc)), disk=disk, tasks=tasks, res=res)
 
 
 def compare_model(scn, ex, reply):
